@@ -19,7 +19,7 @@ func init() {
 	Register("C20", &Info{
 		Run:   runC20,
 		Quick: 3000, Thor: 300000,
-		Rule: "a world = a seed connection that obtains a genuine TLS 1.2 or TLS 1.3 session from the repository server (captured through a recording ClientSessionCache), then a second UConn (parrots with and without session_ticket / pre_shared_key extensions) on which a sequence of 0-5 session-API calls drawn from {SetSessionCache, BuildHandshakeStateWithoutSession, SetSessionTicketExtension (session of the seed connection), SetSessionState (the seed's or one forged with MakeClientSessionState), SetPskExtension (extension initialised by the harness from the seed's resumption state with an independently derived early secret and binder key), BuildHandshakeState} is applied in order, followed by Handshake; all sequences of length <= 3 are enumerated by run index, longer ones are drawn; a small reference model of the documented protocol classifies each sequence as allowed / forbidden / unspecified; oracle: allowed => no panic, Handshake completes, the injected ticket / PSK identity appears on the wire byte for byte and the server resumes; forbidden (setter without a cache, setter after BuildHandshakeState, setter for an extension the spec lacks) => an error or a panic carrying a message, never a runtime error; unspecified => only 'no runtime-error panic'; non-trivial = the sequence contains a setter; distinct = (parrot, version, sequence)",
+		Rule: "a world = a seed connection that obtains a genuine TLS 1.2 or TLS 1.3 session from the repository server (captured through a recording ClientSessionCache), then a second UConn (parrots with and without session_ticket / pre_shared_key extensions) on which a sequence of 0-5 session-API calls drawn from {SetClientRandom and SetSNI (documented edits of a built hello), SetSessionCache, BuildHandshakeStateWithoutSession, SetSessionTicketExtension (session of the seed connection), SetSessionState (the seed's or one forged with MakeClientSessionState), SetPskExtension (extension initialised by the harness from the seed's resumption state with an independently derived early secret and binder key), BuildHandshakeState} is applied in order, followed by Handshake; all sequences of length <= 3 over the eight operations are enumerated by run index (585 of every 800 runs), longer ones are drawn; a small reference model of the documented protocol classifies each sequence as allowed / forbidden / unspecified; oracle: allowed => no panic, Handshake completes, the injected ticket / PSK identity appears on the wire byte for byte and the server resumes; forbidden (setter without a cache, setter after BuildHandshakeState, setter for an extension the spec lacks) => an error or a panic carrying a message, never a runtime error; unspecified => only 'no runtime-error panic'; non-trivial = the sequence contains a setter; distinct = (parrot, version, sequence)",
 		Assumptions: []string{"the reference model is my reading of the doc comments on UConn.BuildHandshakeState, BuildHandshakeStateWithoutSession, SetSessionTicketExtension, SetPskExtension, SetSessionState and Config.PreferSkipResumptionOnNilExtension; it is deliberately narrow about what it calls 'allowed': cache set first, at most one setter, setter before any BuildHandshakeState (BuildHandshakeStateWithoutSession may precede it)",
 			"TLS 1.3 early secret and binder key for the injected PSK are derived by the harness (RFC 8446 section 7.1) from ClientSessionState.MasterSecret()"},
 		Real: []string{"utls client session controller and handshake from /repo", "utls server (real tickets)"},
@@ -60,36 +60,97 @@ func suiteHash(s uint16) func() hash.Hash {
 	return sha256.New
 }
 
-const c20ops = "CWTSPB"
+const c20ops = "CWTSPBRN"
 
 func opName(b byte) string {
-	return map[byte]string{'C': "SetSessionCache", 'W': "BuildHandshakeStateWithoutSession", 'T': "SetSessionTicketExtension", 'S': "SetSessionState", 'P': "SetPskExtension", 'B': "BuildHandshakeState"}[b]
+	return map[byte]string{'R': "SetClientRandom", 'N': "SetSNI", 'C': "SetSessionCache", 'W': "BuildHandshakeStateWithoutSession", 'T': "SetSessionTicketExtension", 'S': "SetSessionState", 'P': "SetPskExtension", 'B': "BuildHandshakeState"}[b]
 }
 
 func runC20(c *Ctx) {
 	ch := c.Ch
 	// sequence: enumerate all of length <= 3 over 6 ops (1+6+36+216 = 259), then draw
 	var seq []byte
-	idx := int(c.Run) % 400
-	if idx < 259 {
+	nops := len(c20ops)
+	idx := int(c.Run) % 800
+	if idx < 1+nops+nops*nops+nops*nops*nops {
 		n, k := 0, idx
-		for p := 1; k >= p; p *= 6 {
+		for p := 1; k >= p; p *= nops {
 			k -= p
 			n++
 		}
 		for i := 0; i < n; i++ {
-			seq = append(seq, c20ops[k%6])
-			k /= 6
+			seq = append(seq, c20ops[k%nops])
+			k /= nops
 		}
 	} else {
-		n := ch.Range(2, 5, "seq-len")
+		if ch.Bool(50, "structured") {
+			// the documented shapes: [inspect] cache [inspect] setter [build]* [edit]* [build]?
+			if ch.Bool(25, "w0") {
+				seq = append(seq, 'W')
+			}
+			seq = append(seq, 'C')
+			if ch.Bool(30, "w1") {
+				seq = append(seq, 'W')
+			}
+			seq = append(seq, "TSP"[ch.Pick(3, "setter")])
+			for k := ch.Pick(3, "builds"); k > 0; k-- {
+				seq = append(seq, 'B')
+			}
+			for k := ch.Pick(3, "edits"); k > 0; k-- {
+				seq = append(seq, "RN"[ch.Pick(2, "edit")])
+			}
+			if ch.Bool(30, "b-last") {
+				seq = append(seq, 'B')
+			}
+		}
+		n := ch.Range(2, 6, "seq-len")
+		if len(seq) > 0 {
+			n = 0
+		}
+		if n > 0 && ch.Bool(60, "cache-first") {
+			seq = append(seq, 'C') // the prerequisite of every setter: more sequences the model allows
+		}
 		for i := 0; i < n; i++ {
-			seq = append(seq, c20ops[ch.Pick(6, "op")])
+			seq = append(seq, c20ops[ch.Pick(nops, "op")])
+		}
+	}
+	// SetClientRandom needs a built hello (documented): an edit before any build becomes a build
+	builtYet := false
+	for i, op := range seq {
+		if op == 'B' || op == 'W' {
+			builtYet = true
+		}
+		if op == 'R' && !builtYet {
+			seq[i] = 'B'
+			builtYet = true
 		}
 	}
 	ver := []uint16{tls.VersionTLS12, tls.VersionTLS13}[ch.Pick(2, "ver")]
+	// most worlds give a single-setter sequence the protocol version it can work with
+	nset, lastSetter := 0, byte(0)
+	for _, op := range seq {
+		if op == 'T' || op == 'S' || op == 'P' {
+			nset++
+			lastSetter = op
+		}
+	}
+	match := nset == 1 && ch.Bool(80, "matching-world")
+	if match {
+		if lastSetter == 'P' {
+			ver = tls.VersionTLS13
+		} else {
+			ver = tls.VersionTLS12
+		}
+	}
 	targets := []IDInfo{{"Chrome_133", tls.HelloChrome_133}, {"Chrome_112_PSK_Shuf", tls.HelloChrome_112_PSK_Shuf}, {"Firefox_120", tls.HelloFirefox_120}, {"Safari_16_0", tls.HelloSafari_16_0}, {"Chrome_100_PSK", tls.HelloChrome_100_PSK}, {"Firefox_65", tls.HelloFirefox_65}}
 	idi := targets[ch.Pick(len(targets), "target")]
+	if match {
+		if lastSetter == 'P' {
+			idi = []IDInfo{{"Chrome_112_PSK_Shuf", tls.HelloChrome_112_PSK_Shuf}, {"Chrome_100_PSK", tls.HelloChrome_100_PSK}, {"Chrome_115_PQ_PSK", tls.HelloChrome_115_PQ_PSK}}[ch.Pick(3, "psk-target")]
+		} else {
+			idi = []IDInfo{{"Chrome_133", tls.HelloChrome_133}, {"Firefox_120", tls.HelloFirefox_120}, {"Firefox_65", tls.HelloFirefox_65}, {"Chrome_100_PSK", tls.HelloChrome_100_PSK}}[ch.Pick(4, "ticket-target")]
+		}
+	}
 	forged := ch.Bool(40, "forged")
 	w := c.NewWorld(simrt.Config{})
 	scfg := &tls.Config{Certificates: []tls.Certificate{Cert("ecdsa").U}, MaxVersion: ver}
@@ -114,7 +175,11 @@ func runC20(c *Ctx) {
 	class := "allowed"
 	reason := ""
 	usedSetter := byte(0)
-	for _, op := range seq {
+	forbiddenAt := -1
+	for opi, op := range seq {
+		if class == "forbidden" && forbiddenAt < 0 {
+			forbiddenAt = opi - 1
+		}
 		switch op {
 		case 'C':
 			cacheSet = true
@@ -159,6 +224,9 @@ func runC20(c *Ctx) {
 		}
 	}
 
+	if class == "forbidden" && forbiddenAt < 0 {
+		forbiddenAt = len(seq) - 1
+	}
 	// ---- run it ----
 	var opErr error
 	var opPanic any
@@ -196,6 +264,14 @@ func runC20(c *Ctx) {
 					}
 					wantTicket = ticket
 					opErr = u.SetSessionState(st)
+				case 'R':
+					var rnd [32]byte
+					for j := range rnd {
+						rnd[j] = byte(0x40 + i + j)
+					}
+					opErr = u.SetClientRandom(rnd[:])
+				case 'N':
+					u.SetSNI("www.example.test")
 				case 'P':
 					ext := &tls.UtlsPreSharedKeyExtension{}
 					if ver == tls.VersionTLS13 {
@@ -279,6 +355,20 @@ func runC20(c *Ctx) {
 			c.Violate("allowed-sequence-echo-failed", "%s", detail)
 		}
 	case "forbidden":
+		// a forbidden call is refused where it is made (error or message panic of that call); a panic
+		// that surfaces only later (a following build, or Handshake) is an internal assertion tripping
+		// over state the forbidden call was allowed to leave behind
+		if hsPanic != nil || (opPanic != nil && failedAt > forbiddenAt && (seq[failedAt] == 'B' || seq[failedAt] == 'W')) {
+			where := "Handshake"
+			if hsPanic == nil {
+				where = opName(seq[failedAt])
+			}
+			c.Violate("forbidden-call-accepted-then-internal-panic in="+where, "%s: forbidden call %s (index %d) did not fail; later panic: %s", detail, opName(seq[forbiddenAt]), forbiddenAt, firstLine(fmt.Sprint(opPanic, hsPanic)))
+			return
+		}
+		if opPanic != nil {
+			c.Probe("forbidden-call-panicked-with-message")
+		}
 		if opErr == nil && opPanic == nil && hsPanic == nil && o.BuildErr == nil && o.CErr == nil {
 			// the forbidden call was silently accepted: only a problem if it also took effect
 			c.Probe("forbidden-sequence-accepted")
